@@ -201,7 +201,7 @@ def post_run(vlib, clib, seed, tier, log):
             exe = vlib.build_cdriver(getattr(G, "HARNESS", pid.lower()), clib)
             outs, crashes, leaks = vlib.run_driver(exe, getattr(G, "C_ARGS", []), cases, timeout=900)
             # the other drivers run every operation with fresh / pre-used / aliased outputs: compare with their models too
-            mexe = vlib.build_mdriver()
+            mexe = vlib.build_mdriver(pid)
             minputs = [c + (" => " + o if o is not None else "") for c, o in zip(cases, outs)]
             mouts, _, _ = vlib.run_driver(mexe, [pid], minputs, timeout=900)
             bad, _, _ = vlib.compare_outputs(G, cases, outs, mouts, crashes)
